@@ -222,4 +222,88 @@ theorem choi_trace_preserving_iff (J : Matrix (n × m) (n × m) ℂ) :
 
 end choi
 
+/-! ## The chi (process) matrix
+
+`to_chi` writes the Choi matrix in a basis of operators: `J = Σ_ab χ_ab vec(B_a) vec(B_b)†`
+(`_chi_to_choi`: `B χ B†` with the vectorised basis operators as columns).  Whatever the basis
+operators are, the map is then `X ↦ Σ_ab χ_ab B_a X B_b†` — the formula of the user guide.  With the
+complex conjugates of the basis operators in the columns (what the library did before its repair) the
+same statement holds for the conjugated operators, which for the Pauli basis differ from the Pauli
+operators in the sign of every `σ_y`. -/
+section chi
+variable {ι : Type} [Fintype ι]
+
+/-- `vec(K)` with column stacking: index `(column, row)` -/
+def vecOf (K : Matrix m n ℂ) : n × m → ℂ := fun p => K p.2 p.1
+
+theorem choiApply_vecMulVec (A B : Matrix m n ℂ) (X : Matrix n n ℂ) :
+    choiApply (vecMulVec (vecOf A) (star (vecOf B))) X = A * X * Bᴴ := by
+  funext i k
+  simp only [choiApply, vecOf, vecMulVec_apply, Pi.star_apply, Matrix.mul_apply, conjTranspose_apply,
+    Finset.sum_mul]
+  rw [Finset.sum_comm]
+  refine Finset.sum_congr rfl fun l _ => Finset.sum_congr rfl fun j _ => ?_
+  ring
+
+theorem choiApply_add (J K : Matrix (n × m) (n × m) ℂ) (X : Matrix n n ℂ) :
+    choiApply (J + K) X = choiApply J X + choiApply K X := by
+  funext i k
+  simp [choiApply, add_mul, Finset.sum_add_distrib]
+
+theorem choiApply_smul (c : ℂ) (J : Matrix (n × m) (n × m) ℂ) (X : Matrix n n ℂ) :
+    choiApply (c • J) X = c • choiApply J X := by
+  funext i k
+  simp [choiApply, Finset.mul_sum, mul_assoc]
+
+theorem choiApply_zero (X : Matrix n n ℂ) : choiApply (0 : Matrix (n × m) (n × m) ℂ) X = 0 := by
+  funext i k
+  simp [choiApply]
+
+theorem choiApply_sum {κ : Type} (s : Finset κ) (f : κ → Matrix (n × m) (n × m) ℂ) (X : Matrix n n ℂ) :
+    choiApply (∑ a ∈ s, f a) X = ∑ a ∈ s, choiApply (f a) X := by
+  classical
+  induction s using Finset.induction_on with
+  | empty => simp [choiApply_zero]
+  | insert a s ha ih => rw [Finset.sum_insert ha, Finset.sum_insert ha, choiApply_add, ih]
+
+/-- `_chi_to_choi`: the Choi matrix of a process matrix `χ` in the operator basis `B` -/
+def choiOfChi (B : ι → Matrix m n ℂ) (χ : Matrix ι ι ℂ) : Matrix (n × m) (n × m) ℂ :=
+  ∑ a, ∑ b, χ a b • vecMulVec (vecOf (B a)) (star (vecOf (B b)))
+
+/-- **the process matrix applies by the textbook formula**, for every operator basis, every `χ`, every
+operator -/
+theorem choi_of_chi_apply (B : ι → Matrix m n ℂ) (χ : Matrix ι ι ℂ) (X : Matrix n n ℂ) :
+    choiApply (choiOfChi B χ) X = ∑ a, ∑ b, χ a b • (B a * X * (B b)ᴴ) := by
+  unfold choiOfChi
+  rw [choiApply_sum]
+  refine Finset.sum_congr rfl fun a _ => ?_
+  rw [choiApply_sum]
+  refine Finset.sum_congr rfl fun b _ => ?_
+  rw [choiApply_smul, choiApply_vecMulVec]
+
+/-- a Kraus set is the special case of a diagonal process matrix with unit entries -/
+theorem choi_of_chi_diag_one (B : ι → Matrix m n ℂ) [DecidableEq ι] (X : Matrix n n ℂ) :
+    choiApply (choiOfChi B (1 : Matrix ι ι ℂ)) X = ∑ a, B a * X * (B a)ᴴ := by
+  rw [choi_of_chi_apply]
+  refine Finset.sum_congr rfl fun a _ => ?_
+  rw [Finset.sum_eq_single a]
+  · simp
+  · intro b _ hb; simp [Matrix.one_apply_ne hb.symm]
+  · intro h; exact absurd (Finset.mem_univ _) h
+
+/-- what the library computed before its repair: the conjugated operators in the columns give the
+formula for the conjugated operators (for the Pauli basis: `σ_y ↦ -σ_y`) -/
+theorem choi_of_chi_conj_basis (B : ι → Matrix m n ℂ) (χ : Matrix ι ι ℂ) (X : Matrix n n ℂ) :
+    choiApply (choiOfChi (fun a => (B a).map star) χ) X
+      = ∑ a, ∑ b, χ a b • ((B a).map star * X * ((B b).map star)ᴴ) :=
+  choi_of_chi_apply _ χ X
+
+/-- the conjugated Pauli basis differs from the Pauli basis exactly in the sign of `σ_y` -/
+example : (!![0, -Complex.I; Complex.I, 0] : Matrix (Fin 2) (Fin 2) ℂ).map star
+    = - !![0, -Complex.I; Complex.I, 0] := by
+  ext i j
+  fin_cases i <;> fin_cases j <;> simp
+
+end chi
+
 end Qv.C08
